@@ -9,7 +9,10 @@ use super::{
     decoder::{self, PayloadDecoder, PayloadItem, PayloadType},
     encoder, Message, MessageType,
 };
-use crate::{body::BodySize, error::ParseError, ConnectionType, Request, Response, ServiceConfig};
+use crate::{
+    body::BodySize, error::ParseError, ConnectionType, Request, RequestHead, Response,
+    ServiceConfig,
+};
 
 bitflags! {
     #[derive(Debug, Clone, Copy)]
@@ -103,6 +106,46 @@ impl Codec {
     pub fn config(&self) -> &ServiceConfig {
         &self.config
     }
+
+    /// Context a response to the request with this head must be encoded with.
+    pub(super) fn request_context(&self, head: &RequestHead) -> RequestContext {
+        let mut conn_type = head.connection_type();
+
+        if conn_type == ConnectionType::KeepAlive && !self.flags.contains(Flags::KEEP_ALIVE_ENABLED)
+        {
+            conn_type = ConnectionType::Close
+        }
+
+        RequestContext {
+            head: head.method == Method::HEAD,
+            version: head.version,
+            conn_type,
+        }
+    }
+
+    /// Context the next response will be encoded with.
+    pub(super) fn current_context(&self) -> RequestContext {
+        RequestContext {
+            head: self.flags.contains(Flags::HEAD),
+            version: self.version,
+            conn_type: self.conn_type,
+        }
+    }
+
+    pub(super) fn set_request_context(&mut self, ctx: RequestContext) {
+        self.flags.set(Flags::HEAD, ctx.head);
+        self.version = ctx.version;
+        self.conn_type = ctx.conn_type;
+    }
+
+}
+
+/// Per-request state that decides how the response to that request is encoded.
+#[derive(Debug, Clone, Copy)]
+pub(super) struct RequestContext {
+    head: bool,
+    version: Version,
+    conn_type: ConnectionType,
 }
 
 impl Decoder for Codec {
@@ -120,16 +163,8 @@ impl Decoder for Codec {
                 None => None,
             })
         } else if let Some((req, payload)) = self.decoder.decode(src)? {
-            let head = req.head();
-            self.flags.set(Flags::HEAD, head.method == Method::HEAD);
-            self.version = head.version;
-            self.conn_type = head.connection_type();
-
-            if self.conn_type == ConnectionType::KeepAlive
-                && !self.flags.contains(Flags::KEEP_ALIVE_ENABLED)
-            {
-                self.conn_type = ConnectionType::Close
-            }
+            let ctx = self.request_context(req.head());
+            self.set_request_context(ctx);
 
             match payload {
                 PayloadType::None => self.payload = None,
